@@ -235,7 +235,7 @@ def rule_st5(ctx: Ctx) -> RuleResult:
                 if e.k == "substore" and root_of(e.base)[0] == "free":
                     name = root_of(e.base)[1]
                     d = _slot_set(e.index, branch, li, p, guard_only=False)
-                    if e.value[0] == "const" and e.value[1] in (None, False, 0):
+                    if _clearing(e.value):
                         continue      # clearing writes (zip emission) are resets, not data
                     written.setdefault(name, set()).add(d)
                     sample_node[name] = e
@@ -252,7 +252,7 @@ def rule_st5(ctx: Ctx) -> RuleResult:
                     continue
                 li = _loop_iters(p)
                 for e in p.trace:
-                    if e.k == "substore" and root_of(e.base)[0] == "free" and e.value[0] == "const" and e.value[1] in (None, False, 0):
+                    if e.k == "substore" and root_of(e.base)[0] == "free" and _clearing(e.value):
                         name = root_of(e.base)[1]
                         if name in reset:
                             d = _slot_set(e.index, branch, li, p, guard_only=True)
@@ -301,8 +301,32 @@ def rule_st5(ctx: Ctx) -> RuleResult:
     return r
 
 
+def _clearing(v):
+    """the stored value is a reset: None / False / 0, or -- for a slice store -- a sequence made of one of them ([None] * n, array('B', [False] * n),
+    bytes(n))"""
+    if v[0] == "const" and v[1] in (None, False, 0):
+        return True
+    if v[0] == "binop" and v[1] == "Mult":
+        return any(x[0] == "list" and len(x) == 2 and _clearing(x[1]) for x in (v[2], v[3]))
+    if v[0] == "call" and v[1] in (("glob", "array.array"), ("builtin", "list"), ("builtin", "tuple")) and v[2]:
+        return _clearing(v[2][-1])
+    if v[0] == "call" and v[1] in (("builtin", "bytes"), ("builtin", "bytearray")) and len(v[2]) == 1 and v[2][0][0] != "const":
+        return True
+    return False
+
+
 def _slot_set(index, branch, loop_iters, p, guard_only):
     """Describe base*n + X as a set of slots of the key: ('range', n) | ('one', term) | ('unknown', index)."""
+    if index[0] == "slice" and len(index) >= 3 and index[1] is not None and index[2] is not None and (len(index) < 4 or index[3] in (None, ("const", 1))):
+        # table[key*D : key*D + D] = ...  -- the key's whole slice (the value's length is the assignment's own business: a list of
+        # another length changes the table's length, which TM-5 / MS rules would see)
+        lo = linear_index(index[1], loop_iters)
+        if lo is not None and lo[0] == "scaled" and lo[2] == ("const", 0):
+            from .linear import diff
+            dd = diff(index[2], index[1])
+            if dd is not None and dict(dd[0]) == {lo[1]: 1} and dd[1] == 0:
+                return ("range", lo[1])
+        return ("unknown", index)
     li = linear_index(index, loop_iters)
     if li is None or li[0] != "scaled":
         return ("unknown", index)
